@@ -1,12 +1,261 @@
 /-
-Helper lemmas for property C11 (Mathlib allowed here).
+Helper lemmas for property C11, Gauss-Seidel part (Mathlib allowed here).
+The abstract multigrid / driver / smoothing-set lemmas live in Proofs/RelaxMG.lean.
 -/
 import Pyiga.Model.Relax
 import Mathlib.Tactic.Ring
 import Mathlib.Tactic.Linarith
 import Mathlib.Tactic.FieldSimp
+import Mathlib.Tactic.LinearCombination
 import Mathlib.Algebra.BigOperators.Group.Finset.Basic
+import Mathlib.Algebra.BigOperators.Ring.Finset
+import Mathlib.Algebra.Order.Field.Basic
 
 namespace Pyiga.Relax
+
+open Finset
+
+section field
+variable {K : Type} [Field K] [DecidableEq K]
+
+/-- the dense entry `a_ij` a stored CSR row denotes: duplicates are summed (scipy's
+canonical form, `toarray()`, `sum_duplicates()`). -/
+def rowVal (es : List (ℕ × K)) (j : ℕ) : K := ((es.filter (fun e => e.1 = j)).map (·.2)).sum
+
+/-- `Σ a·x[col]` over all stored entries with `col ≠ i` -/
+def offSum (es : List (ℕ × K)) (i : ℕ) (x : List K) : K :=
+  ((es.filter (fun e => e.1 ≠ i)).map (fun e => e.2 * x.getD e.1 0)).sum
+
+/-- value of the last stored entry in column `i`, `d` if there is none -/
+def lastDiag (es : List (ℕ × K)) (i : ℕ) (d : K) : K :=
+  es.foldl (fun d e => if i = e.1 then e.2 else d) d
+
+theorem rowVal_nil (j : ℕ) : rowVal ([] : List (ℕ × K)) j = 0 := by simp [rowVal]
+
+theorem rowVal_cons (e : ℕ × K) (es : List (ℕ × K)) (j : ℕ) :
+    rowVal (e :: es) j = (if e.1 = j then e.2 else 0) + rowVal es j := by
+  unfold rowVal
+  by_cases h : e.1 = j <;> simp [List.filter_cons, h]
+
+theorem offSum_cons (e : ℕ × K) (es : List (ℕ × K)) (i : ℕ) (x : List K) :
+    offSum (e :: es) i x = (if e.1 = i then 0 else e.2 * x.getD e.1 0) + offSum es i x := by
+  unfold offSum
+  by_cases h : e.1 = i <;> simp [List.filter_cons, h]
+
+/-- literal behaviour of the inner loop, no canonicity assumed. -/
+theorem gsRowAcc_eq (i : ℕ) (x : List K) (es : List (ℕ × K)) (r0 d0 : K) :
+    gsRowAcc i x es (r0, d0) = (r0 + offSum es i x, lastDiag es i d0) := by
+  induction es generalizing r0 d0 with
+  | nil => simp [gsRowAcc, offSum, lastDiag]
+  | cons e es ih =>
+    obtain ⟨j, a⟩ := e
+    by_cases h : i = j
+    · subst h
+      simp [gsRowAcc, ih, offSum_cons, lastDiag]
+    · have h' : ¬ j = i := fun hh => h hh.symm
+      simp [gsRowAcc, h, ih, offSum_cons, h', lastDiag, add_assoc]
+
+theorem lastDiag_of_no_diag (es : List (ℕ × K)) (i : ℕ) (d : K)
+    (h : es.filter (fun e => e.1 = i) = []) : lastDiag es i d = d ∧ rowVal es i = 0 := by
+  induction es generalizing d with
+  | nil => simp [lastDiag, rowVal]
+  | cons e es ih =>
+    by_cases he : e.1 = i
+    · simp [List.filter_cons, he] at h
+    · have h2 : es.filter (fun e => e.1 = i) = [] := by simpa [List.filter_cons, he] using h
+      have he' : ¬ i = e.1 := fun hh => he hh.symm
+      have := ih d h2
+      constructor
+      · simpa [lastDiag, he'] using this.1
+      · rw [rowVal_cons]; simp [he, this.2]
+
+/-- with at most one stored diagonal entry the value used by the code is the dense `a_ii`. -/
+theorem lastDiag_canonical (es : List (ℕ × K)) (i : ℕ)
+    (h : (es.filter (fun e => e.1 = i)).length ≤ 1) : lastDiag es i 0 = rowVal es i := by
+  suffices H : ∀ d, lastDiag es i d = if es.filter (fun e => e.1 = i) = [] then d else rowVal es i by
+    have := H 0
+    by_cases hh : es.filter (fun e => e.1 = i) = []
+    · rw [this, if_pos hh]; exact (lastDiag_of_no_diag es i 0 hh).2.symm
+    · rw [this, if_neg hh]
+  induction es with
+  | nil => intro d; simp [lastDiag]
+  | cons e es ih =>
+    intro d
+    by_cases he : e.1 = i
+    · have hlen : (es.filter (fun e => e.1 = i)).length = 0 := by
+        simp [List.filter_cons, he] at h; simpa using h
+      have hnil : es.filter (fun e => e.1 = i) = [] := List.length_eq_zero_iff.mp hlen
+      have := lastDiag_of_no_diag es i e.2 hnil
+      have hne : ¬ ((e :: es).filter (fun e => e.1 = i) = []) := by simp [List.filter_cons, he]
+      rw [if_neg hne, rowVal_cons, this.2]
+      simp only [he, if_true, add_zero]
+      have : lastDiag (e :: es) i d = lastDiag es i e.2 := by simp [lastDiag, he.symm]
+      rw [this]; exact (lastDiag_of_no_diag es i e.2 hnil).1
+    · have h2 : (es.filter (fun e => e.1 = i)).length ≤ 1 := by simpa [List.filter_cons, he] using h
+      have he' : ¬ i = e.1 := fun hh => he hh.symm
+      have hstep : lastDiag (e :: es) i d = lastDiag es i d := by simp [lastDiag, he']
+      have hf : (e :: es).filter (fun e => e.1 = i) = es.filter (fun e => e.1 = i) := by
+        simp [List.filter_cons, he]
+      rw [hstep, hf, ih h2 d, rowVal_cons]; simp [he]
+
+/-- regrouping the stored off-diagonal entries by column. -/
+theorem offSum_eq_sum (es : List (ℕ × K)) (i n : ℕ) (x : List K) (hcols : ∀ e ∈ es, e.1 < n) :
+    offSum es i x = ∑ j ∈ (range n).erase i, rowVal es j * x.getD j 0 := by
+  induction es with
+  | nil => simp [offSum, rowVal]
+  | cons e es ih =>
+    have hc : ∀ e' ∈ es, e'.1 < n := fun e' he' => hcols e' (List.mem_cons_of_mem _ he')
+    have hen : e.1 < n := hcols e List.mem_cons_self
+    rw [offSum_cons, ih hc]
+    simp only [rowVal_cons, add_mul, sum_add_distrib]
+    congr 1
+    by_cases h : e.1 = i
+    · rw [if_pos h]
+      symm
+      apply sum_eq_zero
+      intro j hj
+      have : e.1 ≠ j := by rw [h]; exact fun hh => (ne_of_mem_erase hj) hh.symm
+      simp [this]
+    · rw [if_neg h]
+      have hmem : e.1 ∈ (range n).erase i := mem_erase.mpr ⟨h, mem_range.mpr hen⟩
+      have : ∀ j ∈ (range n).erase i, (if e.1 = j then e.2 else 0) * x.getD j 0
+          = if e.1 = j then e.2 * x.getD e.1 0 else 0 := by
+        intro j _; by_cases hj : e.1 = j <;> simp [hj]
+      rw [sum_congr rfl this, sum_ite_eq, if_pos hmem]
+
+theorem set_getD_self (x : List K) (i : ℕ) : x.set i (x.getD i 0) = x := by
+  by_cases h : i < x.length
+  · apply List.ext_getElem (by simp)
+    intro j h1 h2
+    by_cases hij : i = j
+    · subst hij; simp [List.getD_eq_getElem?_getD, List.getElem?_eq_getElem h]
+    · simp [List.getElem_set, hij]
+  · exact List.set_eq_of_length_le (Nat.le_of_not_lt h)
+
+theorem getD_set (x : List K) (i j : ℕ) (v : K) (hi : i < x.length) :
+    (x.set i v).getD j 0 = if j = i then v else x.getD j 0 := by
+  by_cases hij : j = i
+  · subst hij; simp [List.getD_eq_getElem?_getD, hi]
+  · have : i ≠ j := fun h => hij h.symm
+    simp [List.getD_eq_getElem?_getD, List.getElem?_set, this, hij]
+
+/-- **textbook form of one row update** (canonical diagonal, columns in range). -/
+theorem gsUpdate_textbook (es : List (ℕ × K)) (b : ℕ → K) (x : List K) (i n : ℕ)
+    (hdiag : (es.filter (fun e => e.1 = i)).length ≤ 1) (hcols : ∀ e ∈ es, e.1 < n) :
+    gsUpdate es b x i =
+      if rowVal es i ≠ 0 then
+        x.set i ((b i - ∑ j ∈ (range n).erase i, rowVal es j * x.getD j 0) / rowVal es i)
+      else x := by
+  unfold gsUpdate
+  simp only [gsRowAcc_eq, zero_add, lastDiag_canonical es i hdiag, offSum_eq_sum es i n x hcols]
+  by_cases h : rowVal es i = 0 <;> simp [h]
+
+theorem denseDot_eq_sum (n : ℕ) (r : ℕ → K) (x : List K) :
+    denseDot n r x = ∑ j ∈ range n, r j * x.getD j 0 := by
+  unfold denseDot
+  induction n with
+  | zero => simp
+  | succ n ih => rw [List.range_succ, List.foldl_append, ih, sum_range_succ]; simp
+
+theorem gs_dense_sparse (es : List (ℕ × K)) (A : ℕ → ℕ → K) (b : ℕ → K) (x : List K) (i n : ℕ)
+    (hdiag : (es.filter (fun e => e.1 = i)).length ≤ 1) (hcols : ∀ e ∈ es, e.1 < n) (hi : i < n)
+    (hne : rowVal es i ≠ 0) (hA : ∀ j < n, A i j = rowVal es j) :
+    denseUpdate n A b x i = gsUpdate es b x i := by
+  rw [gsUpdate_textbook es b x i n hdiag hcols, if_pos hne]
+  unfold denseUpdate
+  simp only [denseDot_eq_sum]
+  have h1 : ∑ j ∈ range n, A i j * x.getD j 0 = ∑ j ∈ range n, rowVal es j * x.getD j 0 :=
+    sum_congr rfl (fun j hj => by rw [hA j (mem_range.mp hj)])
+  have h2 := add_sum_erase (range n) (fun j => rowVal es j * x.getD j 0) (mem_range.mpr hi)
+  rw [h1, hA i hi]
+  congr 2
+  rw [← h2]; ring
+
+theorem gsUpdate_fixed (es : List (ℕ × K)) (b : ℕ → K) (x : List K) (i n : ℕ)
+    (hdiag : (es.filter (fun e => e.1 = i)).length ≤ 1) (hcols : ∀ e ∈ es, e.1 < n) (hi : i < n)
+    (hrow : ∑ j ∈ range n, rowVal es j * x.getD j 0 = b i) : gsUpdate es b x i = x := by
+  rw [gsUpdate_textbook es b x i n hdiag hcols]
+  by_cases h : rowVal es i = 0
+  · simp [h]
+  · rw [if_pos h]
+    have h2 := add_sum_erase (range n) (fun j => rowVal es j * x.getD j 0) (mem_range.mpr hi)
+    have : (b i - ∑ j ∈ (range n).erase i, rowVal es j * x.getD j 0) / rowVal es i = x.getD i 0 := by
+      rw [← hrow, ← h2]; field_simp; ring
+    rw [this, set_getD_self]
+
+/-! ### energy -/
+
+/-- `E(x) = ½ xᵀAx − bᵀx` on the leading `n × n` block, `x` given as a function. -/
+def energy (n : ℕ) (A : ℕ → ℕ → K) (b : ℕ → K) (x : ℕ → K) : K :=
+  (1 / 2) * ∑ i ∈ range n, ∑ j ∈ range n, x i * A i j * x j - ∑ i ∈ range n, b i * x i
+
+/-- expansion of the energy around `x` (symmetric `A`). -/
+theorem energy_add (n : ℕ) (A : ℕ → ℕ → K) (b x y : ℕ → K)
+    (hsym : ∀ i < n, ∀ j < n, A i j = A j i) [NeZero (2 : K)] :
+    energy n A b (fun k => x k + y k) = energy n A b x
+      + ∑ i ∈ range n, y i * (∑ j ∈ range n, A i j * x j - b i)
+      + (1 / 2) * ∑ i ∈ range n, ∑ j ∈ range n, y i * A i j * y j := by
+  unfold energy
+  have hcomm : ∑ i ∈ range n, ∑ j ∈ range n, x i * A i j * y j
+      = ∑ i ∈ range n, ∑ j ∈ range n, y i * A i j * x j := by
+    rw [sum_comm]
+    apply sum_congr rfl; intro i hi; apply sum_congr rfl; intro j hj
+    rw [hsym j (mem_range.mp hj) i (mem_range.mp hi)]; ring
+  have e1 : ∑ i ∈ range n, ∑ j ∈ range n, (x i + y i) * A i j * (x j + y j)
+      = ∑ i ∈ range n, ∑ j ∈ range n, x i * A i j * x j
+        + 2 * ∑ i ∈ range n, ∑ j ∈ range n, y i * A i j * x j
+        + ∑ i ∈ range n, ∑ j ∈ range n, y i * A i j * y j := by
+    have : ∀ i ∈ range n, ∑ j ∈ range n, (x i + y i) * A i j * (x j + y j)
+        = ∑ j ∈ range n, x i * A i j * x j + ∑ j ∈ range n, x i * A i j * y j
+          + ∑ j ∈ range n, y i * A i j * x j + ∑ j ∈ range n, y i * A i j * y j := by
+      intro i _
+      simp only [← sum_add_distrib]
+      apply sum_congr rfl; intro j _; ring
+    rw [sum_congr rfl this]
+    simp only [sum_add_distrib]
+    rw [hcomm]; ring
+  have e2 : ∑ i ∈ range n, b i * (x i + y i) = ∑ i ∈ range n, b i * x i + ∑ i ∈ range n, b i * y i := by
+    simp only [mul_add, sum_add_distrib]
+  have e3 : ∑ i ∈ range n, y i * (∑ j ∈ range n, A i j * x j - b i)
+      = ∑ i ∈ range n, ∑ j ∈ range n, y i * A i j * x j - ∑ i ∈ range n, b i * y i := by
+    rw [← sum_sub_distrib]
+    apply sum_congr rfl; intro i _
+    rw [mul_sub, mul_sum]
+    congr 1
+    · apply sum_congr rfl; intro j _; ring
+    · ring
+  rw [e1, e2, e3]; ring
+
+/-- coordinate update `x_i += δ`: `E` changes by `δ·(A x − b)_i + ½ δ² a_ii`. -/
+theorem energy_coord (n : ℕ) (A : ℕ → ℕ → K) (b x : ℕ → K) (i : ℕ) (δ : K) (hi : i < n)
+    (hsym : ∀ i < n, ∀ j < n, A i j = A j i) [NeZero (2 : K)] :
+    energy n A b (fun k => if k = i then x k + δ else x k) = energy n A b x
+      + δ * (∑ j ∈ range n, A i j * x j - b i) + (1 / 2) * (δ * A i i * δ) := by
+  have hx : (fun k => if k = i then x k + δ else x k) = fun k => x k + (if k = i then δ else 0) := by
+    funext k; by_cases h : k = i <;> simp [h]
+  rw [hx, energy_add n A b x _ hsym]
+  have hmem : i ∈ range n := mem_range.mpr hi
+  have s1 : ∑ k ∈ range n, (if k = i then δ else 0) * (∑ j ∈ range n, A k j * x j - b k)
+      = δ * (∑ j ∈ range n, A i j * x j - b i) := by
+    have : ∀ k ∈ range n, (if k = i then δ else 0) * (∑ j ∈ range n, A k j * x j - b k)
+        = if k = i then δ * (∑ j ∈ range n, A i j * x j - b i) else 0 := by
+      intro k _; by_cases h : k = i <;> simp [h]
+    rw [sum_congr rfl this, sum_ite_eq', if_pos hmem]
+  have s2 : ∑ k ∈ range n, ∑ j ∈ range n, (if k = i then δ else 0) * A k j * (if j = i then δ else 0)
+      = δ * A i i * δ := by
+    have inner : ∀ k ∈ range n, ∑ j ∈ range n, (if k = i then δ else 0) * A k j * (if j = i then δ else 0)
+        = if k = i then δ * A i i * δ else 0 := by
+      intro k _
+      by_cases h : k = i
+      · subst h
+        have : ∀ j ∈ range n, (if k = k then δ else 0) * A k j * (if j = k then δ else 0)
+            = if j = k then δ * A k k * δ else 0 := by
+          intro j _; by_cases hj : j = k <;> simp [hj]
+        rw [sum_congr rfl this, sum_ite_eq', if_pos hmem]; simp
+      · simp [h]
+    rw [sum_congr rfl inner, sum_ite_eq', if_pos hmem]
+  rw [s1, s2]
+
+end field
 
 end Pyiga.Relax
